@@ -1,45 +1,43 @@
 (* Property C19 (partial): signature printing/parsing.  Statements closed by `exact`, each with Print Assumptions. *)
 From Coq Require Import List String Bool.
-From C19 Require Import Sig SigProofs Imports ImportsProofs.
+From C19 Require Import Sig SigProofs Imports ImportsProofs Ann AnnProofs AnnImports.
 Import ListNotations.
 Open Scope string_scope.
 
-(* kinds, names, order, annotations and rendered defaults of ANY parameter list survive printing + parsing, provided
-   (i) the source obeys Python's grammar, (ii) a parameter called self/cls is unannotated, (iii) names of the form
-   __x occur only as a leading run of the positional-or-keyword parameters *)
-Theorem sig_roundtrip_partial : forall magic a,
-  wf_params a = true -> self_cls_plain a = true -> elide_ok a = true ->
+(* After fix d2bbe81 (only a leading run of positional parameters can be positional-only) the statements that the
+   previous round REFUTED hold: kinds, names, order, annotations and rendered defaults of ANY parameter list Python's
+   grammar can produce survive printing + parsing.  The one remaining hypothesis: a parameter called self/cls is
+   unannotated (stubgen drops the annotation of a first parameter so named, by design: see self_annotation_dropped). *)
+Theorem sig_roundtrip : forall magic a,
+  wf_params a = true -> self_cls_plain a = true ->
   parse_sig (print_sig (get_func_args magic (transform_args a))) = Some (stub_view magic a).
-Proof. intros magic a H1 H2 H3. exact (sig_roundtrip_holds magic a (conj H1 (conj H2 H3))). Qed.
-Print Assumptions sig_roundtrip_partial.
+Proof. intros magic a H1 H2. exact (sig_roundtrip_holds magic a (conj H1 H2)). Qed.
+Print Assumptions sig_roundtrip.
 
-Theorem printed_sig_is_valid_python_partial : forall magic a,
-  wf_params a = true -> self_cls_plain a = true -> elide_ok a = true ->
+Theorem printed_sig_is_valid_python : forall magic a,
+  wf_params a = true -> self_cls_plain a = true ->
   parse_sig (print_sig (get_func_args magic (transform_args a))) <> None.
-Proof. intros magic a H1 H2 H3. rewrite (sig_roundtrip_holds magic a (conj H1 (conj H2 H3))). discriminate. Qed.
-Print Assumptions printed_sig_is_valid_python_partial.
+Proof. intros magic a H1 H2. rewrite (sig_roundtrip_holds magic a (conj H1 H2)). discriminate. Qed.
+Print Assumptions printed_sig_is_valid_python.
 
-(* a function whose only parameter is keyword-only and named __x is printed with the bare star followed by a slash:
-   not a parameter list of Python *)
-Definition wit_invalid : arguments := mkArgs [] [] None [mkParam "__x" None None] None.
-Theorem printed_sig_is_valid_python_refuted : exists a,
-  wf_params a = true /\ self_cls_plain a = true /\
-  render (print_sig (get_func_args false (transform_args a))) = "*, /, __x" /\
-  parse_sig (print_sig (get_func_args false (transform_args a))) = None.
-Proof. exists wit_invalid. vm_compute. repeat split; reflexivity. Qed.
-Print Assumptions printed_sig_is_valid_python_refuted.
-
-(* `def f(a, __b): ...`  is printed as  `(a, /, __b)`: valid, but `a` became positional-only and `__b` did not *)
-Definition wit_kind : arguments := mkArgs [] [mkParam "a" None None; mkParam "__b" None None] None [] None.
-Theorem sig_roundtrip_refuted : exists a r,
-  wf_params a = true /\ self_cls_plain a = true /\
-  render (print_sig (get_func_args false (transform_args a))) = "a, /, __b" /\
+(* exactly what still fails without self_cls_plain: the annotation of a first parameter named self (or cls) is lost *)
+Definition wit_self : arguments := mkArgs [] [mkParam "self" (Some "T") None; mkParam "x" (Some "int") None] None [] None.
+Theorem self_annotation_dropped : exists a r,
+  wf_params a = true /\ self_cls_plain a = false /\
+  render (print_sig (get_func_args false (transform_args a))) = "self, x: int" /\
   parse_sig (print_sig (get_func_args false (transform_args a))) = Some r /\ r <> stub_view false a /\
-  map pname (posonly r) = ["a"].
-Proof.
-  exists wit_kind. eexists. vm_compute. repeat split; try reflexivity. intro H; discriminate H.
-Qed.
-Print Assumptions sig_roundtrip_refuted.
+  map pann (args r) = [None; Some "int"].
+Proof. exists wit_self. eexists. vm_compute. repeat split; try reflexivity. intro H; discriminate H. Qed.
+Print Assumptions self_annotation_dropped.
+
+(* the former witnesses of the refutations, now inside the theorem: a keyword-only __x gets no slash; `a, __b` keeps
+   both parameters positional-or-keyword *)
+Example former_witnesses :
+  let sg a := render (print_sig (get_func_args false (transform_args a))) in
+  sg (mkArgs [] [] None [mkParam "__x" None None] None) = "*, __x" /\
+  sg (mkArgs [] [mkParam "a" None None; mkParam "__b" None None] None [] None) = "a, __b" /\
+  sg (mkArgs [] [] None [] (Some (mkParam "__k" None None))) = "**__k".
+Proof. vm_compute. repeat split; reflexivity. Qed.
 
 (* ImportTracker: for ANY sequence of add_import / add_import_from / require_name / reexport, the emitted import block
    binds exactly the required names that were seen in an import statement, each exactly once, and no other name *)
@@ -58,15 +56,45 @@ Example tracker_example :
   = [LImport ["numpy"] (Some ["np"]); LFrom ["typing"] ["List"] (Some ["L"]); LImport ["os"; "path"] None].
 Proof. vm_compute. reflexivity. Qed.
 
+(* annotation printing (AnnotationPrinter on the unanalysed types stubgen prints: names, subscripts, typing.Union /
+   typing.Optional / PEP 604 unions, Callable argument lists, `...`, Literal values, typing.List -> list): for EVERY type
+   expression, parsing the printed text gives back the expression up to the printer's own normalisation (Union/Optional
+   become flat `X | Y` unions, replaced names) *)
+Theorem ann_roundtrip : forall t, wf_ty t = true -> parse_ann (print_ty t) = Some (norm t).
+Proof. exact ann_roundtrip_holds. Qed.
+Print Assumptions ann_roundtrip.
+
+(* printer + tracker: every name occurring in a printed annotation is the literal None, or was handed to require_name;
+   its import key is then bound exactly once by the emitted import block when the tracker has seen it in an import
+   statement, and not bound at all otherwise (builtin / defined in the stub / never registered) — for any history of
+   tracker operations before the annotation is printed, and any way `dn` of cutting dotted names *)
+Theorem annotation_names_imported_once : forall (dn : string -> dname) ops t x,
+  let tr := run ops in
+  let '(text, tr') := print_annotation dn t tr in
+  In x (names_of text) ->
+  x = "None" \/
+  let k := require_target tr (dn x) in
+  In k (required_names tr') /\
+  (has k (module_for tr') = true -> count_occ dn_dec (map bound (import_lines tr')) k = 1) /\
+  (has k (module_for tr') = false -> ~ In k (map bound (import_lines tr'))).
+Proof. exact AnnImports.annotation_names_imported_once. Qed.
+Print Assumptions annotation_names_imported_once.
+
+Example ann_example :
+  let t := UName "Dict" (RReplace "dict") [UName "str" RPlain []; UName "Optional" ROptional
+             [UName "Callable" RPlain [UList [UName "int" RPlain []]; UName "Union" RUnion [UName "A" RPlain []; UName "B" RPlain []]]]] in
+  wf_ty t = true /\ render_ann (print_ty t) = "dict[str, Callable[[int], A | B] | None]".
+Proof. vm_compute. split; reflexivity. Qed.
+
 (* non-vacuity *)
 Example hyps_satisfiable :
   let a := mkArgs [mkParam "a" None (Some ("1", Some "int"))] [mkParam "b" (Some "str") (Some ("'x'", Some "str"))] None
                   [mkParam "c" None None; mkParam "d" None (Some ("...", None))] (Some (mkParam "kw" None None)) in
-  wf_params a = true /\ self_cls_plain a = true /\ elide_ok a = true /\
+  wf_params a = true /\ self_cls_plain a = true /\
   stub_signature false a = "(a: int = 1, /, b: str = 'x', *, c, d=..., **kw)".
 Proof. vm_compute. repeat split; reflexivity. Qed.
 Example hyps_satisfiable_dunder :
   let a := mkArgs [] [mkParam "__p" None None; mkParam "q" None (Some ("None", None))] (Some (mkParam "args" None None)) [] None in
-  wf_params a = true /\ self_cls_plain a = true /\ elide_ok a = true /\
+  wf_params a = true /\ self_cls_plain a = true /\
   stub_signature false a = "(__p, /, q=None, *args)".
 Proof. vm_compute. repeat split; reflexivity. Qed.
